@@ -163,7 +163,7 @@ impl XDiscreteDistribution {
             }
             Self::Poisson(i) => inverse_cdf(i, x).into(),
             Self::Uniform(i) => LazyBigint::from_f64(
-                (x * ((i.max() - i.min() + 1) as f64) + (i.min() - 1) as f64).floor(),
+                (x * (i.max() as f64 - i.min() as f64 + 1.0) + (i.min() as f64 - 1.0)).floor(),
             )?,
         })
     }
